@@ -24,6 +24,7 @@ import (
 	"io"
 	"math"
 	"os"
+	"os/exec"
 	"sort"
 	"strconv"
 	"strings"
@@ -79,9 +80,10 @@ type seg struct {
 }
 
 type op struct {
-	Kind  string `json:"kind"` // write | rebuild | query | sweep
+	Kind  string `json:"kind"` // write | rebuild | restart | query | sweep
 	Segs  []seg  `json:"segs,omitempty"`
 	Chunk int    `json:"chunk,omitempty"` // rebuild: 1-based chunk number forced through the asynchronous rebuilder (0 = every chunk, synchronously)
+	Crash bool   `json:"crash,omitempty"` // restart: on an image of the directory taken while the server runs (cindex.dat of the last clean stop)
 	Dead  bool   `json:"dead,omitempty"`  // rebuild: query while the other chunks' indexes are missing (SPEC only), then heal
 	Lo    *int64 `json:"lo,omitempty"`
 	Hi    *int64 `json:"hi,omitempty"`
@@ -188,6 +190,8 @@ type preResult struct {
 type sysRun struct {
 	h            history
 	srv          *lrsrv.Srv
+	dir          string   // the running server's directory
+	dirs         []string // every directory of the run (crash images included), removed at the end
 	ctx          context.Context
 	src          string
 	jrnl         journal.Journal
@@ -464,6 +468,86 @@ func (r *sysRun) doRebuild(o op, rng *vh.Rng) bool {
 		}
 	})
 	r.compareIndexState("rebuild", rng)
+	return true
+}
+
+// acquireJournal finds the partition's journal on the running server
+func (r *sysRun) acquireJournal() bool {
+	src, _, err := r.srv.TIndex.GetOrCreateJournal(tags)
+	if err != nil {
+		res.Note("system: %v", err)
+		return false
+	}
+	r.srv.TIndex.Release(src)
+	r.src = src
+	r.jrnl, err = r.srv.Journals.GetOrCreate(r.ctx, src)
+	if err != nil || r.jrnl == nil {
+		res.Note("system: no journal: %v", err)
+		return false
+	}
+	return true
+}
+
+// doRestart: a clean stop and start on the same directory, or a start on an image of the directory copied while the server
+// runs (what a crash leaves: current journal files, the time-index snapshot of the last clean stop). Afterwards one
+// SyncChunks and a non-forced rebuild of every chunk bring the index into a state that does not depend on which queries ran
+func (r *sysRun) doRestart(o op, rng *vh.Rng) bool {
+	if r.jrnl == nil {
+		return true
+	}
+	if !r.waitIdle() {
+		return false
+	}
+	if o.Crash {
+		img := lrsrv.NewDir()
+		os.RemoveAll(img)
+		if out, err := exec.Command("cp", "-a", r.dir, img).CombinedOutput(); err != nil {
+			res.Note("system: crash image: %v %s", err, out)
+			return false
+		}
+		r.dirs = append(r.dirs, img)
+		r.srv.Stop()
+		r.dir = img
+	} else {
+		r.srv.Stop()
+	}
+	srv, err := lrsrv.Start(r.dir, lrsrv.Opts{MaxChunkSize: r.h.ChunkSize, NoRPC: true})
+	if err != nil {
+		res.SpecFail(vh.SpecFailure{Section: r.section, Kind: "restart-refused", Input: r.inputWith(&o), Impl: err.Error(), Spec: "starts", What: "the server does not start again"})
+		// keep a stopped handle so that the deferred Stop is harmless
+		return false
+	}
+	r.srv = srv
+	r.jrnl = nil
+	if !r.acquireJournal() {
+		return false
+	}
+	n := 0
+	for _, c := range r.chunks() {
+		n += int(c.Count())
+	}
+	if n != len(r.allTs) {
+		res.SpecFail(vh.SpecFailure{Section: r.section, Kind: "records-lost-on-restart", Input: r.inputWith(&o), Impl: fmt.Sprint(n), Spec: fmt.Sprint(len(r.allTs)), What: "the journal does not hold every flushed record after the restart (C07's matter; the history is abandoned)"})
+		return false
+	}
+	cks := r.chunks()
+	srv.TsIdx.SyncChunks(r.ctx, r.src, cks)
+	for _, c := range cks {
+		srv.TsIdx.RebuildIndex(r.ctx, r.src, c, false)
+	}
+	if !r.waitIdle() {
+		return false
+	}
+	r.full = nil
+	r.done = append(r.done, o)
+	how := "clean"
+	if o.Crash {
+		how = "crash"
+	}
+	r.ask("rw.restart "+how, func(string) {})
+	r.ask("rw.sync", func(string) {})
+	r.ask("rw.heal", func(string) {})
+	r.compareIndexState("restart ("+how+")", rng)
 	return true
 }
 
@@ -824,14 +908,19 @@ func (r *sysRun) doSweep(o op, specOnly bool) {
 // runSystem executes one history on a fresh server and evaluates it against the model
 func runSystem(h history, section string, sec *vh.Section, verbose bool) {
 	dir := lrsrv.NewDir()
-	defer os.RemoveAll(dir)
 	srv, err := lrsrv.Start(dir, lrsrv.Opts{MaxChunkSize: h.ChunkSize, NoRPC: len(h.Ops)%4 != 0})
 	if err != nil {
 		res.Note("system: %v", err)
+		os.RemoveAll(dir)
 		return
 	}
-	defer srv.Stop()
-	r := &sysRun{h: h, srv: srv, ctx: context.Background(), sec: sec, section: section, verbose: verbose}
+	r := &sysRun{h: h, srv: srv, dir: dir, dirs: []string{dir}, ctx: context.Background(), sec: sec, section: section, verbose: verbose}
+	defer func() {
+		r.srv.Stop()
+		for _, d := range r.dirs {
+			os.RemoveAll(d)
+		}
+	}()
 	rng := vh.NewRng(int64(len(h.Ops))*7919 + int64(h.ChunkSize))
 	r.ask(fmt.Sprintf("rw.reset %d", h.ChunkSize), func(string) {})
 	for _, o := range h.Ops {
@@ -841,6 +930,8 @@ func runSystem(h history, section string, sec *vh.Section, verbose bool) {
 			ok = r.doWrite(o, rng)
 		case "rebuild":
 			ok = r.doRebuild(o, rng)
+		case "restart":
+			ok = r.doRestart(o, rng)
 		case "query":
 			r.doQuery(o, false)
 		case "sweep":
@@ -992,9 +1083,46 @@ func equalBoundHistory(rng *vh.Rng) history {
 	return h
 }
 
+// restartHistory: clean stops (time-index snapshot written), growth and roll-over of the known chunks, a crash image (the
+// snapshot is older than the chunks), ranges above the snapshot's hulls. No rebuild ops: a forced rebuild between the
+// snapshot and the crash would leave roots the model does not track.
+func restartHistory(rng *vh.Rng, thorough bool) history {
+	h := history{ChunkSize: rng.PickI([]int{5020, 5020, 10000, 50000}), Regime: rng.PickS([]string{"strict", "ties", "ties", "strict", "jitter"})}
+	g := &tsGen{regime: h.Regime, cur: rng.PickI64([]int64{1000, 1000, -3000, 1 << 40}), rng: rng.Fork("ts")}
+	batch := func(n int) op {
+		ts := make([]int64, n)
+		for i := range ts {
+			ts[i] = g.next()
+		}
+		return op{Kind: "write", Segs: compress(ts)}
+	}
+	sweep := func(n int) op { return op{Kind: "sweep", N: n, Seed: int64(rng.Intn(1 << 30))} }
+	h.Ops = append(h.Ops, batch(rng.PickI([]int{1, 10, 100, 260})))
+	if rng.Bool() {
+		h.Ops = append(h.Ops, sweep(4))
+	}
+	h.Ops = append(h.Ops, op{Kind: "restart"})
+	rounds := 1 + rng.Intn(3)
+	for k := 0; k < rounds; k++ {
+		for b := 0; b < 1+rng.Intn(4); b++ {
+			h.Ops = append(h.Ops, batch(rng.PickI([]int{1, 20, 249, 250, 251, 300, 500})))
+		}
+		switch rng.Intn(4) {
+		case 0:
+			h.Ops = append(h.Ops, op{Kind: "restart"}, sweep(8))
+		default:
+			h.Ops = append(h.Ops, op{Kind: "restart", Crash: true}, sweep(14))
+		}
+	}
+	if rng.Bool() {
+		h.Ops = append(h.Ops, batch(rng.PickI([]int{10, 250, 300})), sweep(8))
+	}
+	return h
+}
+
 func sectionSystem(rng *vh.Rng) {
 	sec := res.Section("system", "system-correspondence",
-		"in-process server with MaxChunkSize from {600 … 250000} (20-byte records), histories of writes (batch sizes {1,249,250,251,500,5000}, small random, occasionally > 5001) in timestamp regimes strict / ties (equal runs of 1…1000 across index points and chunk edges) / jitter / stepback / arbitrary, bases near 0, negative, near both int64 extremes; interleaved with forced index rebuilds (synchronous, or one chunk through the asynchronous rebuilder with queries while the other chunks' indexes are missing) and sweeps of RANGE queries whose bounds are drawn from {index points, chunk edges, batch edges, hull values, min, max, 0} ±1, ±10 beyond, absent; every query is read page by page (page sizes 10000/1000/251/97: each page re-creates the cursor from the returned position) through backend.Querier or the RPC client; compared with the filtered unbounded read (SPEC) and with the Lean pipeline model (MODEL), plus chunk hulls and index points after every write/rebuild; non-trivial = the range keeps some but not all events, distinct by (history, bounds, page)")
+		"in-process server with MaxChunkSize from {600 … 250000} (20-byte records), histories of writes (batch sizes {1,249,250,251,500,5000}, small random, occasionally > 5001) in timestamp regimes strict / ties (equal runs of 1…1000 across index points and chunk edges) / jitter / stepback / arbitrary, bases near 0, negative, near both int64 extremes; interleaved with clean restarts and restarts on crash images (directory copied while the server runs: current journal, time-index snapshot of the last clean stop; every eighth history), with forced index rebuilds (synchronous, or one chunk through the asynchronous rebuilder with queries while the other chunks' indexes are missing) and sweeps of RANGE queries whose bounds are drawn from {index points, chunk edges, batch edges, hull values, min, max, 0} ±1, ±10 beyond, absent; every query is read page by page (page sizes 10000/1000/251/97: each page re-creates the cursor from the returned position) through backend.Querier or the RPC client; compared with the filtered unbounded read (SPEC) and with the Lean pipeline model (MODEL), plus chunk hulls and index points after every write/rebuild; non-trivial = the range keeps some but not all events, distinct by (history, bounds, page)")
 	n := 120
 	if args.Thorough {
 		n = 240
@@ -1003,6 +1131,8 @@ func sectionSystem(rng *vh.Rng) {
 	for i := 0; i < n; i++ {
 		if i%8 == 7 {
 			hs = append(hs, equalBoundHistory(rng))
+		} else if i%8 == 3 {
+			hs = append(hs, restartHistory(rng, args.Thorough))
 		} else {
 			hs = append(hs, genHistory(rng, args.Thorough, false))
 		}
